@@ -15,10 +15,18 @@
 (*     published;                                                          *)
 (*   - scv is the global view of seq_cst accesses and fences.              *)
 (* A relaxed load may return ANY message not older than cur[t][x].         *)
+(* seq_cst ACCESSES are release / acquire accesses that additionally       *)
+(* respect the single total order of seq_cst operations - here the order   *)
+(* in which TLC executes them: a seq_cst load of x cannot read a message   *)
+(* older than the newest message of x that a seq_cst operation has written *)
+(* or read (scv[x]); they do NOT synchronize whole views (a seq_cst store  *)
+(* followed by a seq_cst load of another location is still a store-buffer  *)
+(* pattern against non-seq_cst accesses of the other thread).  seq_cst     *)
+(* FENCES exchange whole views through scv.                                *)
 (* Design decisions (append-only modification order, RMWs read the latest  *)
-(* message, seq_cst accesses join a global view) only REMOVE behaviours:   *)
-(* everything explored is permitted by C++11 (a subset of RC11, no load    *)
-(* buffering).                                                             *)
+(* message, the execution order as the seq_cst order) only REMOVE          *)
+(* behaviours: everything explored is permitted by C++11 (a subset of      *)
+(* RC11, no load buffering).                                               *)
 (*                                                                         *)
 (* Plain (non-atomic) locations are ordinary locations accessed with       *)
 (* PlainRd / PlainWr; a plain access is race free iff the accessing thread *)
@@ -66,26 +74,26 @@ Load(t, x, o, i) ==
   IF ~Weak THEN UNCHANGED memvars
   ELSE
     LET m  == hist[x][i]
-        c0 == IF o = "sc" THEN Join(cur[t], scv) ELSE cur[t]
+        c0 == cur[t]
         c1 == [c0 EXCEPT ![x] = Max(c0[x], i)]
         c2 == IF IsAcq(o) THEN Join(c1, m.view) ELSE c1
         a2 == Join([Join(acq[t], c1) EXCEPT ![x] = Max(@, i)], m.view)
     IN /\ cur' = [cur EXCEPT ![t] = c2]
        /\ acq' = [acq EXCEPT ![t] = Join(a2, c2)]
-       /\ scv' = IF o = "sc" THEN Join(scv, c2) ELSE scv
+       /\ scv' = IF o = "sc" THEN [scv EXCEPT ![x] = Max(@, i)] ELSE scv
        /\ UNCHANGED <<hist, rel, race>>
 
 Store(t, x, v, o) ==
   IF ~Weak THEN ScStore(x, v) /\ UNCHANGED <<cur, acq, rel, scv, race>>
   ELSE
     LET i  == Len(hist[x]) + 1
-        c0 == IF o = "sc" THEN Join(cur[t], scv) ELSE cur[t]
+        c0 == cur[t]
         c1 == [c0 EXCEPT ![x] = i]
         mv == IF IsRel(o) THEN c1 ELSE [rel[t] EXCEPT ![x] = i]
     IN /\ hist' = [hist EXCEPT ![x] = Append(@, [val |-> v, view |-> mv])]
        /\ cur' = [cur EXCEPT ![t] = c1]
        /\ acq' = [acq EXCEPT ![t] = Join(acq[t], c1)]
-       /\ scv' = IF o = "sc" THEN Join(scv, c1) ELSE scv
+       /\ scv' = IF o = "sc" THEN [scv EXCEPT ![x] = i] ELSE scv
        /\ UNCHANGED <<rel, race>>
 
 \* read-modify-write: reads the latest message (value Latest(x)), writes v; o applies to both halves.
@@ -96,7 +104,7 @@ Rmw(t, x, v, o) ==
     LET j  == Len(hist[x])
         m  == hist[x][j]
         i  == j + 1
-        c0 == IF o = "sc" THEN Join(cur[t], scv) ELSE cur[t]
+        c0 == cur[t]
         c1 == IF IsAcq(o) THEN Join(c0, m.view) ELSE c0
         c2 == [c1 EXCEPT ![x] = i]
         base == IF IsRel(o) THEN c2 ELSE [rel[t] EXCEPT ![x] = i]
@@ -104,7 +112,7 @@ Rmw(t, x, v, o) ==
     IN /\ hist' = [hist EXCEPT ![x] = Append(@, [val |-> v, view |-> mv])]
        /\ cur' = [cur EXCEPT ![t] = c2]
        /\ acq' = [acq EXCEPT ![t] = Join(Join(acq[t], c2), m.view)]
-       /\ scv' = IF o = "sc" THEN Join(scv, c2) ELSE scv
+       /\ scv' = IF o = "sc" THEN [scv EXCEPT ![x] = i] ELSE scv
        /\ UNCHANGED <<rel, race>>
 
 \* several relaxed stores by t to the distinct locations in S in one step (initialisation of an object no other thread can see yet:
